@@ -3,6 +3,20 @@
 set -e
 cd "$(dirname "$0")"
 /venv/bin/python tools/translate.py
+TARGETS=$(/venv/bin/python - <<'PY'
+import json, importlib, sys
+sys.path.insert(0, "."); sys.path.insert(0, "tools")
+t = []
+for c in json.load(open("MANIFEST.json"))["checks"]:
+    try:
+        H = importlib.import_module("harness." + c["property_id"].lower())
+        t += list(H.LEAN_TARGETS) + list(getattr(H, "FINDINGS_TARGETS", []))
+    except Exception as e:
+        print("setup: no harness for", c["property_id"], e, file=sys.stderr)
+print(" ".join(dict.fromkeys(t)))
+PY
+)
 cd lean
-lake build VectorModel.Gen.Exec.All VectorModel.Exec.Sym VectorModel.Exec.FloatInst VectorModel.Gen.Real.All
-lake build $(ls VectorModel/Props/*.lean | sed 's/\.lean$//; s#/#.#g')
+lake build VectorModel.Gen.Exec.All VectorModel.Exec.Sym VectorModel.Exec.FloatInst VectorModel.Glue.Methods VectorModel.Gen.Real.All
+# theorem files of the claimed checks (a failure here is reported by the check itself, not by setup)
+lake build $TARGETS || echo "setup: some theorem targets did not build; the corresponding checks will report it"
